@@ -26,8 +26,8 @@ import (
 // ACMECase: one certificate issued through the real ACME flow (new-account, new-order, http-01,
 // finalize), then a sequential history of
 //
-//	acmerev     POST /acme/<prov>/revoke-cert signed with the account key (kid)
-//	acmerevkey  POST /acme/<prov>/revoke-cert signed with the certificate's key (jwk)
+//	acmerev:<signer>:<reason>  POST /acme/<prov>/revoke-cert signed by the owning account (o, kid), another valid account (a, kid),
+//	            the certificate's key (k, jwk) or an unrelated key (x, jwk); reason code absent (-) or any integer
 //	mtlsrev     POST /1.0/revoke over mTLS
 //	renew rekey POST /1.0/renew, /1.0/rekey over mTLS
 //
@@ -59,74 +59,115 @@ func runACME(ac *ACMECase) (string, string) {
 	if err != nil {
 		panic(err)
 	}
+	other, err := e.NewAccount("acme", acmeenv.NewKey("es256", 2)) // another valid account of the same provisioner
+	if err != nil {
+		panic(err)
+	}
+	otherKey := acmeenv.NewKey("es256", 3) // a key that is neither an account nor the certificate's
 	is, err := e.Issue(acct, "h"+randName()+".example.com")
 	if err != nil {
 		panic(err)
 	}
 	serial := is.Cert.SerialNumber.String()
-	payload := func(i int) []byte {
-		pl, _ := json.Marshal(map[string]any{"certificate": base64.RawURLEncoding.EncodeToString(is.Cert.Raw), "reason": 1})
-		return pl
-	}
 	path := acmeenv.Path("acme", "revoke-cert")
-	var reqs, evs, answers []string
+	var reqs, answers []string
+	firstOK := -1
 	for i, op := range ac.Ops {
-		var code int
-		kind := "rx0"
-		switch op {
-		case "acmerev":
-			code = e.Post(acct, path, payload(i)).Code
+		f := strings.Split(op, ":") // acmerev:<signer o|a|k|x>:<reason|-> | mtlsrev | renew | rekey ; old forms acmerev / acmerevkey
+		switch f[0] {
 		case "acmerevkey":
-			s := &acmeenv.Shape{Ser: "flat", Protected: map[string]any{"alg": is.CertKey.DefaultAlg(), "nonce": e.Nonce("acme"),
-				"url": acmeenv.URL(path), "jwk": acmeenv.JWKMap(is.CertKey.JWK())}, Payload: payload(i), NSigs: 1, SignKey: is.CertKey}
-			b, _ := s.Build()
-			code = e.Do("POST", path, b).Code
+			f = []string{"acmerev", "k", "1"}
+		case "acmerev":
+			if len(f) == 1 {
+				f = []string{"acmerev", "o", "1"}
+			}
+		}
+		var code int
+		var errType string
+		ans := ""
+		switch f[0] {
+		case "acmerev":
+			body := map[string]any{"certificate": base64.RawURLEncoding.EncodeToString(is.Cert.Raw)}
+			if f[2] != "-" {
+				n, _ := strconv.Atoi(f[2])
+				body["reason"] = n
+			}
+			pl, _ := json.Marshal(body)
+			var rec *httptest.ResponseRecorder
+			switch f[1] {
+			case "o":
+				rec = e.Post(acct, path, pl)
+			case "a":
+				rec = e.Post(other, path, pl)
+			default:
+				k := is.CertKey
+				if f[1] == "x" {
+					k = otherKey
+				}
+				s := &acmeenv.Shape{Ser: "flat", Protected: map[string]any{"alg": k.DefaultAlg(), "nonce": e.Nonce("acme"),
+					"url": acmeenv.URL(path), "jwk": acmeenv.JWKMap(k.JWK())}, Payload: pl, NSigs: 1, SignKey: k}
+				b, _ := s.Build()
+				rec = e.Do("POST", path, b)
+			}
+			code = rec.Code
+			var pd struct{ Type string }
+			json.Unmarshal(rec.Body.Bytes(), &pd)
+			errType = pd.Type
+			switch {
+			case code == 200:
+				ans = "ok"
+			case code == 403 && strings.HasSuffix(errType, ":unauthorized"):
+				ans = "unauthorized"
+			case code == 400 && strings.HasSuffix(errType, ":alreadyRevoked"):
+				ans = "already"
+			case code == 400 && strings.HasSuffix(errType, ":badRevocationReason"):
+				ans = "badreason"
+			}
+			reqs = append(reqs, fmt.Sprintf("v:%s:%s:%d", f[1], f[2], i))
 		case "mtlsrev":
 			code = serveAuth(e.Auth, api.Revoke, "/1.0/revoke", map[string]any{"serial": serial, "passive": true, "reasonCode": 1, "reason": "t" + strconv.Itoa(i)}, is.Cert)
-		case "renew":
-			kind = "nx"
-			code = serveAuth(e.Auth, api.Renew, "/1.0/renew", nil, is.Cert)
-		case "rekey":
-			kind = "nx"
-			key := is.CertKey.Priv.(*ecdsa.PrivateKey)
-			der, _ := x509.CreateCertificateRequest(rand.Reader, &x509.CertificateRequest{Subject: pkix.Name{CommonName: is.Cert.Subject.CommonName}, DNSNames: is.Cert.DNSNames}, key)
-			p := pem.EncodeToMemory(&pem.Block{Type: "CERTIFICATE REQUEST", Bytes: der})
-			code = serveAuth(e.Auth, api.Rekey, "/1.0/rekey", map[string]any{"csr": string(p)}, is.Cert)
+			switch code {
+			case 200:
+				ans = "ok"
+			case 400:
+				ans = "already"
+			}
+			reqs = append(reqs, fmt.Sprintf("m:%d", i))
+		case "renew", "rekey":
+			if f[0] == "renew" {
+				code = serveAuth(e.Auth, api.Renew, "/1.0/renew", nil, is.Cert)
+			} else {
+				key := is.CertKey.Priv.(*ecdsa.PrivateKey)
+				der, _ := x509.CreateCertificateRequest(rand.Reader, &x509.CertificateRequest{Subject: pkix.Name{CommonName: is.Cert.Subject.CommonName}, DNSNames: is.Cert.DNSNames}, key)
+				p := pem.EncodeToMemory(&pem.Block{Type: "CERTIFICATE REQUEST", Bytes: der})
+				code = serveAuth(e.Auth, api.Rekey, "/1.0/rekey", map[string]any{"csr": string(p)}, is.Cert)
+			}
+			switch code {
+			case 201:
+				ans = "allowed"
+			case 401:
+				ans = "revoked"
+			}
+			reqs = append(reqs, "n")
 		default:
 			continue
 		}
-		ans := "status" + strconv.Itoa(code)
-		switch {
-		case kind == "rx0" && code == 200:
-			ans = "ok"
-		case kind == "rx0" && code == 400:
-			ans = "already"
-		case kind == "nx" && code == 201:
-			ans = "allowed"
-		case kind == "nx" && code == 401:
-			ans = "revoked"
+		if ans == "" {
+			ans = "status" + strconv.Itoa(code)
 		}
-		t := strconv.Itoa(len(reqs))
-		reqs = append(reqs, fmt.Sprintf("%s:%s:%d:n:0:1", kind, c.X(serial), i))
-		evs = append(evs, "s"+t, "s"+t, "s"+t)
+		if ans == "ok" && firstOK < 0 {
+			firstOK = i
+		}
 		answers = append(answers, ans)
-	}
-	// table dump: key only (ACME revocations carry no free-text reason to tag); tag = index of the first acknowledged revocation
-	tag := "?"
-	for i, a := range answers {
-		if a == "ok" {
-			tag = strconv.Itoa(i)
-			break
-		}
 	}
 	var parts []string
 	for _, en := range ss.Dump(e.Auth.GetDatabase(), "revoked_x509_certs") {
-		parts = append(parts, fmt.Sprintf("x%x=%s", en.Key, tag))
+		parts = append(parts, fmt.Sprintf("x%x=%d", en.Key, firstOK))
 	}
-	in := fmt.Sprintf("h reqs=%s evs=%s", strings.Join(reqs, ";"), c.List(evs))
+	in := fmt.Sprintf("a key=%s reqs=%s", c.X(serial), strings.Join(reqs, ";"))
 	impl := strings.Join(answers, ",") + " x=[" + strings.Join(parts, ",") + "] s=[]"
 	seenOK := false
-	for i, a := range answers {
+	for _, a := range answers {
 		if a == "allowed" && seenOK {
 			impl += " VIOLATION=renewed-after-acknowledged-revocation"
 		}
@@ -136,7 +177,18 @@ func runACME(ac *ACMECase) (string, string) {
 		if a == "ok" {
 			seenOK = true
 		}
-		_ = i
+	}
+	// nobody but the owning account or a holder of the certificate's key may get a revocation through
+	for i, a := range answers {
+		f := strings.Split(reqs[i], ":")
+		if f[0] == "v" && (f[1] == "a" || f[1] == "x") && a != "unauthorized" {
+			impl += " VIOLATION=revocation-by-unauthorized-signer-not-refused"
+		}
+		if f[0] == "v" && a == "ok" && f[2] != "-" {
+			if n, err := strconv.Atoi(f[2]); err != nil || n < 0 || n > 10 || n == 7 {
+				impl += " VIOLATION=revocation-with-invalid-reason-code-acknowledged"
+			}
+		}
 	}
 	return in, impl
 }
@@ -147,7 +199,15 @@ func genACME(r *c.Rng) *ACMECase {
 	ac := &ACMECase{}
 	n := 3 + r.Intn(6)
 	for i := 0; i < n; i++ {
-		ac.Ops = append(ac.Ops, c.Pick(r, []string{"acmerev", "acmerevkey", "mtlsrev", "renew", "renew", "rekey"}))
+		switch r.Intn(7) {
+		case 0, 1, 2:
+			reason := c.Pick(r, []string{"-", "0", "1", "3", "4", "5", "6", "7", "8", "9", "10", "11", "-1", "255"})
+			ac.Ops = append(ac.Ops, "acmerev:"+c.Pick(r, []string{"o", "o", "k", "k", "a", "x"})+":"+reason)
+		case 3:
+			ac.Ops = append(ac.Ops, "mtlsrev")
+		default:
+			ac.Ops = append(ac.Ops, c.Pick(r, []string{"renew", "renew", "rekey"}))
+		}
 	}
 	return ac
 }
